@@ -389,9 +389,11 @@ func parseGroup(out string) (map[string]string, error) {
 	return res, nil
 }
 
-// parseSingle parses "path, value" lines.
+// parseSingle parses "path, value" lines. The display joins the path with '/', so two different paths whose
+// elements contain '/' can print the same text: the result counts LINES (path text -> rendered values, sorted
+// and joined), it does not pretend that the text identifies a leaf.
 func parseSingle(out string) map[string]string {
-	res := map[string]string{}
+	vals := map[string][]string{}
 	for _, line := range strings.Split(out, "\n") {
 		if line == "" || strings.HasPrefix(line, "//") {
 			continue
@@ -400,7 +402,16 @@ func parseSingle(out string) map[string]string {
 		if i < 0 {
 			continue
 		}
-		res[line[:i]] = line[i+2:]
+		vals[line[:i]] = append(vals[line[:i]], line[i+2:])
+	}
+	return joinVals(vals)
+}
+
+func joinVals(vals map[string][]string) map[string]string {
+	res := map[string]string{}
+	for k, v := range vals {
+		sort.Strings(v)
+		res[k] = strings.Join(v, " AND ")
 	}
 	return res
 }
@@ -442,7 +453,7 @@ func flagQuery(query []gn.Elem) string {
 
 // checkCLI runs the CLI three ways for the same subscription and both display types.
 func checkCLI(e *env, dir, addr, target string, query []gn.Elem, ref map[string]interface{}, st *stats) error {
-	wantGroup, wantSingle := map[string]string{}, map[string]string{}
+	wantGroup, singles := map[string]string{}, map[string][]string{}
 	qidx := gn.IndexOfElems(query, false)
 	for _, el := range query {
 		if len(el.Keys) > 0 {
@@ -460,8 +471,9 @@ func checkCLI(e *env, dir, addr, target string, query []gn.Elem, ref map[string]
 			continue
 		}
 		wantGroup[k] = valStr(v)
-		wantSingle[strings.Join(p, "/")] = fmt.Sprintf("%v", v)
+		singles[strings.Join(p, "/")] = append(singles[strings.Join(p, "/")], fmt.Sprintf("%v", v))
 	}
+	wantSingle := joinVals(singles)
 	protoFile := filepath.Join(dir, "req.txt")
 	os.WriteFile(protoFile, []byte(textReq(target, query, "ONCE")), 0o644)
 	common := []string{"-a", addr, "-tls_skip_verify", "-timeout", "10s"}
